@@ -238,8 +238,11 @@ def first_error_line(logpath):
         txt = open(logpath, errors="replace").read()
     except Exception:
         return "no build log"
-    for line in txt.splitlines():
-        if " error" in line or "undefined reference" in line or "static assertion failed" in line or "static_assert failed" in line:
+    lines = txt.splitlines()
+    # a hard link error says more than the 'undefined reference' warnings (link_check programs are linked with --warn-unresolved-symbols) before it
+    hard = [l for l in lines if "multiple definition of" in l]
+    for line in hard + lines:
+        if " error" in line or "undefined reference" in line or "static assertion failed" in line or "static_assert failed" in line or "multiple definition of" in line:
             line = re.sub(r"/[\w/.+-]*/", "", line)
             line = re.sub(r":\d+:\d+:", ":", line)
             line = re.sub(r":\d+:", ":", line)
